@@ -3,5 +3,5 @@
 set -e
 cd "$(dirname "$0")"
 coqc -Q ../coq/theories Tephra Extract.v > extract.log 2>&1 || { cat extract.log; exit 1; }
-ocamlfind ocamlopt -package str -O2 -w -a model.mli model.ml sexp.ml common.ml span_driver.ml lex_driver.ml ctx_driver.ml parse_driver.ml driver.ml -o driver 2>&1 | grep -v 'options -O' || true
+ocamlfind ocamlopt -package str -O2 -w -a model.mli model.ml sexp.ml common.ml span_driver.ml lex_driver.ml ctx_driver.ml parse_driver.ml render_driver.ml driver.ml -o driver 2>&1 | grep -v 'options -O' || true
 test -x driver
